@@ -22,7 +22,7 @@ from concurrent.futures import ThreadPoolExecutor
 
 ROOT = "/verif"
 REPO = "/repo"
-CACHE = os.path.join(ROOT, ".cache")
+CACHE = os.environ.get("VERIF_CACHE") or os.path.join(ROOT, ".cache")
 COQ = os.path.join(ROOT, "coq")
 HARNESS = os.path.join(ROOT, "harness")
 TARGET = os.path.join(CACHE, "target")
